@@ -26,7 +26,16 @@
 #include <fstream>
 #include <sstream>
 #include <iostream>
-#define atomic verif_atomic
+// std::atomic<T> of the two files is routed through the controller only for pointers (qspinlock::_owner_tail,
+// holder::next, mutex::owner) and bool (holder::got_lock); the other atomics of thread.cpp keep std::atomic
+// (some are accessed through volatile pointers, which verif_atomic's members do not accept)
+namespace std {
+template <class T> struct c01_pick { typedef atomic<T> type; };
+template <class T> struct c01_pick<T*> { typedef verif_atomic<T*> type; };
+template <> struct c01_pick<bool> { typedef verif_atomic<bool> type; };
+template <class T> using c01_atomic_sel = typename c01_pick<T>::type;
+}
+#define atomic c01_atomic_sel
 #define atomic_bool verif_atomic<bool>
 #define atomic_size_t verif_atomic<size_t>
 #define protected public
